@@ -1,0 +1,53 @@
+//go:build verif
+
+// Contracts for package examples/morpheusvm/storage (comment-only; read by /verif/cmd/govc).
+package storage
+
+// balance record key: prefix byte ++ address ++ chunk suffix (1): injective in the address
+//@ func BalanceKey props C06
+//@   pure
+//@   ensures len(result) == 36 && result[0] == balancePrefix && str(result[1:34]) == str(addr) && be16(result, 34) == 1
+
+// the balance stored in state map m under key k (absent record = 0)
+//@ spec func balAt(m map[string][]byte, k bytes) int = ite(has(m, k), be64(m[k], 0), 0)
+// balance records are 8-byte integers and never hold 0 (an emptied account is deleted)
+//@ spec func wfrec(m map[string][]byte, k bytes) bool = has(m, k) ==> len(m[k]) == 8
+
+//@ func innerGetBalance props C06
+//@   ensures is(err, database.ErrNotFound) ==> result0 == 0 && !result1 && result2 == nil
+//@   ensures err != nil && !is(err, database.ErrNotFound) ==> result0 == 0 && !result1 && result2 != nil
+//@   ensures err == nil && len(v) == 8 ==> result0 == be64(v, 0) && result1 && result2 == nil
+//@   ensures err == nil && len(v) != 8 ==> result0 == 0 && !result1 && result2 != nil
+
+// reads go through the state's map contract (state.Mutable.GetValue), also when the state is handed
+// over as state.Immutable: the same object is written between reads
+//@ func getBalance props C06
+//@   requires wfrec(gmap("vis", im), str(BalanceKey(addr)))
+//@   ensures str(result0) == str(BalanceKey(addr))
+//@   ensures result3 == nil ==> result2 == has(gmap("vis", im), str(BalanceKey(addr))) && result1 == balAt(gmap("vis", im), str(BalanceKey(addr)))
+//@   ensures result3 != nil ==> !result2 && result1 == 0
+//@   ensures gmap("vis", im) == old(gmap("vis", im))
+//@   ensures state.stok(im) ==> result3 == nil
+
+//@ func setBalance props C06
+//@   ensures err == nil ==> has(gmap("vis", mu), str(key)) && len(gmap("vis", mu)[str(key)]) == 8 && be64(gmap("vis", mu)[str(key)], 0) == balance
+//@   ensures err != nil ==> has(gmap("vis", mu), str(key)) == old(has(gmap("vis", mu), str(key))) && gmap("vis", mu)[str(key)] == old(gmap("vis", mu)[str(key)])
+//@   ensures forall q string :: q != str(key) ==> has(gmap("vis", mu), q) == old(has(gmap("vis", mu), q)) && gmap("vis", mu)[q] == old(gmap("vis", mu)[q])
+//@   ensures state.stok(mu) ==> err == nil
+
+// AddBalance / SubBalance move exactly `amount` on the address's record and touch nothing else; a sum
+// above 2^64-1 / a balance below the amount is rejected; a failure changes nothing
+//@ func AddBalance props C06
+//@   requires wfrec(gmap("vis", mu), str(BalanceKey(addr)))
+//@   let K = str(BalanceKey(addr))
+//@   ensures err == nil ==> result0 == old(balAt(gmap("vis", mu), K)) + amount && balAt(gmap("vis", mu), K) == result0 && wfrec(gmap("vis", mu), K)
+//@   ensures err != nil ==> has(gmap("vis", mu), K) == old(has(gmap("vis", mu), K)) && gmap("vis", mu)[K] == old(gmap("vis", mu)[K])
+//@   ensures forall q string :: q != K ==> has(gmap("vis", mu), q) == old(has(gmap("vis", mu), q)) && gmap("vis", mu)[q] == old(gmap("vis", mu)[q])
+//@   ensures old(balAt(gmap("vis", mu), K)) + amount > MAX ==> err != nil
+//@ func SubBalance props C06
+//@   requires wfrec(gmap("vis", mu), str(BalanceKey(addr)))
+//@   let K = str(BalanceKey(addr))
+//@   ensures err == nil ==> result0 == old(balAt(gmap("vis", mu), K)) - amount && balAt(gmap("vis", mu), K) == result0 && wfrec(gmap("vis", mu), K) && old(has(gmap("vis", mu), K))
+//@   ensures err != nil ==> has(gmap("vis", mu), K) == old(has(gmap("vis", mu), K)) && gmap("vis", mu)[K] == old(gmap("vis", mu)[K])
+//@   ensures forall q string :: q != K ==> has(gmap("vis", mu), q) == old(has(gmap("vis", mu), q)) && gmap("vis", mu)[q] == old(gmap("vis", mu)[q])
+//@   ensures old(balAt(gmap("vis", mu), K)) < amount ==> err != nil
